@@ -26,9 +26,19 @@ def main():
     sd = os.path.join(wt, "seed_demo")
     out = os.path.join(V, "seeded", name)
     os.makedirs(out, exist_ok=True)
+    prev = None
+    if os.path.exists(os.path.join(out, "meta.json")):
+        try:
+            prev = json.load(open(os.path.join(out, "meta.json")))
+        except Exception:
+            prev = None
     for f in ("patch.diff", "demo.py", "meta.json"):
         shutil.copy(os.path.join(sd, f), os.path.join(out, f))
     meta = json.load(open(os.path.join(out, "meta.json")))
+    if prev and "confirmed_by_us" in prev:     # keep what happened before the check was strengthened
+        meta["earlier_attempts"] = prev.get("earlier_attempts", []) + [
+            {"caught": prev.get("caught"), "check_lines": prev["confirmed_by_us"].get("check_lines"),
+             "suite_stable_pass": prev["confirmed_by_us"].get("suite_stable_pass")}]
     env = dict(os.environ, PYTHONPATH=wt, PYTHONDONTWRITEBYTECODE="1")
     env.pop("ANDROGUARD_VERIF", None)
     conf = {}
